@@ -5,6 +5,7 @@ import numpy as np
 from .. import core, gen
 
 ID = 'C19'
+FOUNDATIONS = ['harness.foundation.cscalar']   # ties of the C++ helper functions the model rests on (generated from their text)
 LEVEL = 'proof'
 RULE = ('corpus; cooccurence: integer images of 2-3 dimensions with 1..64 grey levels (and the dtype maximum) x every '
         'direction (4/13) x distances 1-3 x symmetric on/off x output None / preallocated / one too small; haralick: '
